@@ -385,3 +385,32 @@ pub fn seed_big_buffer(q: u8) -> Seed {
         .push(Op::app(q, Pos::Auto, Sz::XL));
     p.seed(&format!("big-buffer:{}", q))
 }
+
+/// Cursor exactly at the start of block `block` of file 0, every queue empty except a (one record
+/// in file 0): an entry appended now that is longer than what is left of file 0 straddles the file
+/// boundary, and once a is truncated file 0 can be deleted - the log then BEGINS with the
+/// continuation frames of an entry whose head is gone.
+pub fn seed_straddle(block: usize, back: usize) -> Option<Seed> {
+    let mut p = Planner::new();
+    p.push(Op::Create(QA))
+        .push(Op::Create(QB))
+        .push(Op::Create(QF))
+        .push(s3(QA));
+    let target = (block + 1) * BLOCK - BLOCK - back;
+    let before = target.checked_sub(19)?;
+    if !p.fill_to(before) {
+        return None;
+    }
+    p.push(Op::Trunc { q: QF, at: Tr::Last });
+    if p.cur != target {
+        return None;
+    }
+    Some(p.seed(&format!("straddle:cursor@block{}start-{}", block, back)))
+}
+
+pub fn straddle_seeds() -> Vec<Seed> {
+    [(3usize, 0usize), (3, 7), (3, 10), (2, 0)]
+        .iter()
+        .filter_map(|(b, k)| seed_straddle(*b, *k))
+        .collect()
+}
